@@ -264,6 +264,117 @@ func init() {
 					}
 				},
 			},
+			{
+				// the decoders cap their up-front allocation (10000 points, 100 parts) and grow beyond it
+				Name: "beyond-allocation-caps", Count: h.Fixed(40, 4000), BudgetSec: 60,
+				Run: func(c *h.Ctx, idx uint64, r *h.Rand) {
+					sizes := []int{9999, 10000, 10001, 10002, 10240, 16384, 16385, 20001}
+					parts := []int{99, 100, 101, 102, 128, 129, 200, 257}
+					n := sizes[r.Intn(len(sizes))]
+					k := parts[r.Intn(len(parts))]
+					if r.P(1, 4) {
+						n = 10001 + r.Intn(9000)
+						k = 101 + r.Intn(300)
+					}
+					seq := 0.0
+					pt := func() orb.Point {
+						seq++
+						return orb.Point{seq, -seq + r.Float64()}
+					}
+					pts := func(m int) []orb.Point {
+						out := make([]orb.Point, m)
+						for i := range out {
+							out[i] = pt()
+						}
+						return out
+					}
+					small := func() int { return 1 + r.Intn(4) }
+					ring := func(m int) orb.Ring {
+						ps := pts(m)
+						ps = append(ps, ps[0])
+						return orb.Ring(ps)
+					}
+					var g orb.Geometry
+					shape := int(idx % 10)
+					switch shape {
+					case 0:
+						g = orb.LineString(pts(n))
+					case 1:
+						g = orb.MultiPoint(pts(n))
+					case 2:
+						g = orb.Polygon{ring(n)}
+					case 3:
+						p := make(orb.Polygon, k)
+						for i := range p {
+							p[i] = ring(2 + small())
+						}
+						g = p
+					case 4:
+						m := make(orb.MultiLineString, k)
+						for i := range m {
+							m[i] = orb.LineString(pts(small()))
+						}
+						g = m
+					case 5:
+						m := make(orb.MultiPolygon, k)
+						for i := range m {
+							m[i] = orb.Polygon{ring(2 + small())}
+						}
+						g = m
+					case 6:
+						m := make(orb.Collection, k)
+						for i := range m {
+							switch r.Intn(4) {
+							case 0:
+								m[i] = pt()
+							case 1:
+								m[i] = orb.LineString(pts(small()))
+							case 2:
+								m[i] = orb.MultiPoint(pts(small()))
+							default:
+								m[i] = orb.Polygon{ring(2 + small())}
+							}
+						}
+						g = m
+					case 7:
+						// a large member at a random place among many members
+						m := make(orb.MultiLineString, k)
+						big := r.Intn(k)
+						for i := range m {
+							if i == big {
+								m[i] = orb.LineString(pts(n))
+							} else {
+								m[i] = orb.LineString(pts(small()))
+							}
+						}
+						g = m
+					case 8:
+						p := make(orb.Polygon, k)
+						big := r.Intn(k)
+						for i := range p {
+							if i == big {
+								p[i] = ring(n)
+							} else {
+								p[i] = ring(2 + small())
+							}
+						}
+						g = orb.MultiPolygon{{ring(3)}, p, {ring(3)}}
+					default:
+						g = orb.Collection{orb.MultiPoint(pts(n)), orb.Collection{orb.LineString(pts(n))}, pt()}
+					}
+					snap := refmodel.Copy(g)
+					want := refmodel.Norm(refmodel.Copy(g))
+					order := []binary.ByteOrder{binary.LittleEndian, binary.BigEndian}[r.Intn(2)]
+					srid := 0
+					if r.Bool() {
+						srid = srids[r.Intn(len(srids))]
+					}
+					c01one(c, r, g, snap, want, false, order, srid)
+					c.Nontrivial(h.Mix(uint64(shape), uint64(n), uint64(k), refmodel.Hash(g)))
+					c.Max("vertices in one geometry", float64(refmodel.NumVertices(g)), nil)
+					c.Sample(map[string]interface{}{"shape": shape, "points": n, "parts": k, "kind": refmodel.KindName(g)})
+				},
+			},
 		},
 	})
 }
